@@ -150,7 +150,7 @@ CHECKS['C10'] = dict(
 
 CHECKS['C15'] = dict(
     text="Proof (partial): the hand-written scanners that index strings by hand are transcribed with CHECKED primitives (s[i] beyond the terminator, substr/compare past the end and "
-         "fuel exhaustion are faults) and proved total for EVERY byte string: the #define constructor with parse_parameters (progress of the parameter loop), the macro-argument scanner "
+         "fuel exhaustion are faults) and proved total for EVERY byte string: the #define constructor with parse_parameters (progress of the parameter loop), save_expansion (the replacement list cut into text/parameter/__VA_OPT__ nodes, any nesting, incl. the wrapping length p - 1 - start), the macro-argument scanner "
          "used in #if together with the caller's substr (final position within the string), the raw-string scanner (plus soundness: what is reported closed had the shape "
          "delim ( body ) delim quote), the blank-stripping of show_line and the .N line splitter; each pinned variant is refuted by a witness (the repaired defects). Correspondence: the real "
          "functions (ASan build, called through harness/scan_tool) agree with the extracted model on every string up to length 4-5 over each function's delimiter alphabet and on random "
